@@ -191,3 +191,76 @@ void h_norm_grow(void) {
     V_CANARY("grow lemma reached");
 }
 #endif
+
+#ifdef U25_RT
+/* U25.4 — END-TO-END round trip on the real code, bounded in the number of symbols: initialise the real writer,
+ * code RT_K booleans with arbitrary probabilities, flush (svt_od_ec_enc_done: final bits + carry propagation), hand
+ * the bytes to the real reader (od_ec_dec_init / od_ec_dec_refill) and decode RT_K booleans with the same
+ * probabilities: every decoded value equals the coded one.  This closes, for short sequences, what the step
+ * lemmas leave open: the flush, the carry propagation, the reader's initial fill and its padding past the end. */
+#ifndef RT_K
+#define RT_K 2
+#endif
+/* buffer growth is not exercised by this many symbols (16-byte initial buffers): shown by the assertion below, so the
+ * verifier does not have to model a reallocation of symbolic size (growth itself: U25.3.grow) */
+int g_realloc_reached;
+void *realloc(void *p, size_t n) { (void)p; (void)n; g_realloc_reached = 1; __CPROVER_assert(0, "bounded configuration: the 16-byte buffers never need to grow for this many symbols"); __CPROVER_assume(0); return 0; }
+void h_roundtrip(void) {
+    OdEcEnc enc;
+    svt_od_ec_enc_init(&enc, 16);
+    V_ASSERT(enc.error == 0, "writer initialised");
+    unsigned f[RT_K]; int b[RT_K];
+    for (int k = 0; k < RT_K; k++) {
+        V_NONDET(unsigned, fk); V_NONDET(int, bk);
+        V_ASSUME(fk > 0 && fk < 32768 && (bk == 0 || bk == 1));
+        f[k] = fk; b[k] = bk;
+        svt_od_ec_encode_bool_q15(&enc, b[k], f[k]);
+    }
+    uint32_t n = 0;
+    uint8_t *out = svt_od_ec_enc_done(&enc, &n);
+    V_ASSERT(out != NULL && enc.error == 0, "flush succeeds");
+    V_ASSERT(n >= 1 && n <= 16, "flushed byte count within the initial buffer for this many symbols");
+    OdEcDec dec;
+    od_ec_dec_init(&dec, out, n);
+    for (int k = 0; k < RT_K; k++) {
+        int d = od_ec_decode_bool_q15(&dec, f[k]);
+        V_ASSERT(d == b[k], "round trip: the reader returns the boolean the writer coded");
+    }
+    V_CANARY("round trip completed");
+}
+/* same, multi-symbol alphabets: RT_K symbols, each with its own arbitrary valid inverse-CDF table of 2..RT_N
+ * symbols, mixed with one boolean in between (the two coding paths share the window) */
+#ifndef RT_N
+#define RT_N 4
+#endif
+void h_roundtrip_cdf(void) {
+    OdEcEnc enc;
+    svt_od_ec_enc_init(&enc, 16);
+    V_ASSERT(enc.error == 0, "writer initialised");
+    uint16_t icdf[RT_K][RT_N + 1]; int N[RT_K]; int sym[RT_K];
+    V_NONDET(unsigned, fb); V_NONDET(int, bb);
+    V_ASSUME(fb > 0 && fb < 32768 && (bb == 0 || bb == 1));
+    for (int k = 0; k < RT_K; k++) {
+        V_NONDET(int, n); V_NONDET(int, s);
+        V_ASSUME(n >= 2 && n <= RT_N && s >= 0 && s < n);
+        N[k] = n; sym[k] = s;
+        for (int i = 0; i <= RT_N; i++) { V_NONDET(uint16_t, v); icdf[k][i] = v; }
+        V_ASSUME(icdf[k][0] < 32768);
+        for (int i = 1; i < RT_N; i++) V_ASSUME(VALID_ICDF_PREFIX(icdf[k], n, i));
+        V_ASSUME(icdf[k][n - 1] == 0);
+        svt_od_ec_encode_cdf_q15(&enc, sym[k], icdf[k], N[k]);
+        if (k == 0) svt_od_ec_encode_bool_q15(&enc, bb, fb);
+    }
+    uint32_t nb = 0;
+    uint8_t *out = svt_od_ec_enc_done(&enc, &nb);
+    V_ASSERT(out != NULL && enc.error == 0, "flush succeeds");
+    OdEcDec dec;
+    od_ec_dec_init(&dec, out, nb);
+    for (int k = 0; k < RT_K; k++) {
+        int d = od_ec_decode_cdf_q15(&dec, icdf[k], N[k]);
+        V_ASSERT(d == sym[k], "round trip: the reader returns the symbol the writer coded");
+        if (k == 0) { int b = od_ec_decode_bool_q15(&dec, fb); V_ASSERT(b == bb, "round trip: boolean between two symbols"); }
+    }
+    V_CANARY("symbol round trip completed");
+}
+#endif
